@@ -492,3 +492,49 @@ Definition sha1_compress_fips (h : quint) (block : list N) : quint :=
   (add32 h0 a, add32 h1 b, add32 h2 c, add32 h3 d, add32 h4 e).
 Definition sha1_spec_fips (m : list N) : list N :=
   quint_be_bytes (fst (absorb sha1_compress_fips sha1_h0 (sha1_padded m))).
+
+(* =====================================================================================
+   The session encryptors built on the primitives (src/hmac_encryptor.cpp, src/aes_encryptor.cpp),
+   over an abstract MAC function (the hmac object with the mac key) and an abstract block cipher.
+   Not extracted (E, Dc, mac are abstract); the implementation side is checked by the oracle of the sess cases.
+   ===================================================================================== *)
+Section SessionCiphers.
+  Variable mac : list N -> list N.
+  Variable dsz : nat.                          (* digest_size() *)
+  (* hmac_cipher::equal: counts the differing positions of two buffers of the same length, no early exit *)
+  Fixpoint diff_count (a b : list N) : nat :=
+    match a, b with
+    | x :: a', y :: b' => ((if x =? y then 0 else 1) + diff_count a' b')%nat
+    | _, _ => O
+    end.
+  Definition ct_equal (a b : list N) : bool := Nat.eqb (diff_count a b) 0.
+
+  (* hmac_cipher *)
+  Definition hc_encrypt (p : list N) : list N := p ++ mac p.
+  Definition hc_decrypt (c : list N) : option (list N) :=
+    if Nat.ltb (length c) dsz then None else
+    let msz := (length c - dsz)%nat in
+    if ct_equal (mac (firstn msz c)) (skipn msz c) then Some (firstn msz c) else None.
+
+  (* aes_cipher: one cbc object per aes_cipher, IVs primed by set_nonce_iv and then running across calls *)
+  Variable E Dc : list N -> list N.
+  Definition le32_of (l : list N) : N :=
+    match l with b0 :: b1 :: b2 :: b3 :: _ => le32 b0 b1 b2 b3 | _ => 0 end.
+  (* zero block (its ciphertext carries the IV), uint32 length, text, zero padding to whole blocks *)
+  Definition ac_input (p : list N) : list N :=
+    let size := w32 (len p) in
+    let bsz := (Nat.div (N.to_nat size + 4 + 15) 16 * 16 + 16)%nat in
+    over_zeros bsz (repeat 0 16 ++ le_bytes32 size ++ p).
+  Definition ac_encrypt (iv : list N) (p : list N) : list N * list N :=
+    let '(c, iv') := cbc_enc E iv (ac_input p) in (c ++ mac c, iv').
+  Definition ac_decrypt (iv : list N) (c : list N) : option (list N) * list N :=
+    if Nat.ltb (length c) (dsz + 16) then (None, iv) else
+    let real := (length c - dsz)%nat in
+    if negb (Nat.eqb (Nat.modulo real 16) 0) then (None, iv) else
+    if Nat.ltb (Nat.div real 16) 2 then (None, iv) else
+    if negb (ct_equal (mac (firstn real c)) (skipn real c)) then (None, iv) else
+    let '(full, iv') := cbc_dec Dc iv (firstn real c) in
+    let size := le32_of (skipn 16 full) in
+    if N.of_nat (real - 16 - 4) <? size then (None, iv') else
+    (Some (firstn (N.to_nat size) (skipn 20 full)), iv').
+End SessionCiphers.
